@@ -8,7 +8,8 @@
 """
 from .. import dyn, reach
 from .. import refmodel as R
-from ..desc import tup
+from .. import universe as U
+from ..desc import mkstate, tup
 
 CHAINS = [(n,) for n in dyn.SINGLES] + dyn.SHIPPED_CHAINS + [dyn.CHAIN_FULL]
 CHAINS_HI = [('actuate_door',), ('actuate_box',), dyn.CHAIN_KEYDOOR, dyn.CHAIN_FULL]
@@ -33,7 +34,7 @@ def expected_cell(names, s, a, p):
 
 def judge(names, s, a):
     fn = dyn.chain_fn(names)
-    outs, capped = dyn.outcomes(fn, s, a)
+    outs, capped = dyn.outcomes(fn, s, a, via_copy=len(names) > 1)  # chains through transition_with_copy, singles in place
     front = R.front(s[1], s[2], s[3])
     sig = {'action': 'ACTUATE' if a == 'ACTUATE' else 'other', 'front': dyn.front_class(s)}
     special = [(y, x) for y, row in enumerate(s[0]) for x, o in enumerate(row) if o[0] in ('Door', 'Box')]
@@ -62,6 +63,45 @@ def judge(names, s, a):
 
 
 _worker = dyn.make_worker(judge, uses_held=lambda names: bool({'pickndrop', 'actuate_door'} & set(names)))
+
+
+from gym_gridverse.grid_object import Key as _Key
+
+
+class VerifBrassKey(_Key):
+    """a user-defined key type (module-level so that the library's pickle-based copy works; subclassing registers it
+    like any other grid object, at the end of the registry)"""
+
+
+def subclass_key():
+    return VerifBrassKey
+
+
+def judge_subclass_key():
+    """a locked door opens iff the agent holds a key of the door's colour - an instance of a Key subclass is a key"""
+    from gym_gridverse.envs.transition_functions import transition_function_registry as TF, transition_with_copy
+    from gym_gridverse.grid_object import Color, Door
+
+    K = subclass_key()
+    n = 0
+    for dc in (Color.RED, Color.YELLOW, Color.NONE):
+        for kc in (Color.RED, Color.YELLOW, Color.NONE):
+            for via_copy in (False, True):
+                n += 1
+                st = mkstate((((U.FLOOR, ('Door', 2, dc.value, None)),), 0, 0, 'R', dyn.U.NONE))
+                st.agent.grid_object = K(kc)
+                try:
+                    if via_copy:
+                        st = transition_with_copy(TF['actuate_door'], st, dyn.ACT['ACTUATE'])
+                    else:
+                        TF['actuate_door'](st, dyn.ACT['ACTUATE'])
+                except Exception as e:  # noqa: BLE001
+                    return n, f'actuate_door raised {type(e).__name__} while the agent holds an instance of a Key subclass: {e}'
+                opened = st.grid[0, 1].state is Door.Status.OPEN
+                if opened != (dc == kc):
+                    return n, (f'locked {dc.name} door, agent holds a {kc.name} key (instance of a Key subclass): door '
+                               f'{"opened" if opened else "stayed locked"}')
+    return n, None
 
 
 def make_hooks(env, name):
@@ -105,10 +145,14 @@ def make_hooks(env, name):
 
 
 def replay(case):
+    if case['kind'] == 'job':
+        return dyn.replay_job(case, _worker)
     if case['kind'] == 'step':
         return judge(tuple(case['names']), tup(case['s']), case['a'])[2]
     if case['kind'] == 'reach':
         return reach.replay_trace(case, make_hooks)
+    if case['kind'] == 'subkey':
+        return judge_subclass_key()[1]
     raise ValueError(case['kind'])
 
 
@@ -121,6 +165,10 @@ def run(rep, tier, seed):
     else:
         names, init_limit, max_states, gcap = ['keydoor.5x5', 'keydoor.7x7', 'keydoor.9x9'], 8000, 600000, None
     rs, rt = dyn.run_reach(rep, names, init_limit, max_states, make_hooks, replay, 'door_protocol', group_cap=gcap, lineages=2 if tier == 'quick' else 3)
+    kn, km = judge_subclass_key()
+    if km:
+        rep.violation({'kind': 'subkey', 'sig': {'part': 'key_subclass'}}, km)
+    rep.part('key_subclass', cases=kn)
     rep.assume('the history invariant "a locked door is never found open unless a matching key was used" is checked '
                'inductively: every edge of the reachable graph that changes a door status must be a faced ACTUATE with '
                'a matching key (or a closed door), starting from reset states whose door is LOCKED')
